@@ -578,12 +578,19 @@ reg(Prop("C08skel", "Layer A of C08: node budget never exceeded; abort checked b
          design_ref="5/C08"))
 
 reg(Prop("C18", "Exchange evaluation matches the capture-sequence minimax it approximates", "Properties/C18.v",
-         [StreamCfg("c18", 40000, 1500000, judge="judge_c18",
-                    rule="positions from posgen G1/G2/G4 and the battery generator (stacked sliders/pawns on the rays "
-                         "aimed at one square, knights and kings around it; en-passant and promotion variants) x every "
-                         "legal move x thresholds {v-1, v, v+1} around every partial balance of the capture sequence, "
-                         "a +-queen ladder, 0 and (10 %) the int16 extremes; one case = (position, move); non-trivial = "
-                         "at least one recapture is possible; distinct by FEN + move")],
+         [StreamCfg("c18", 100000, 1500000, judge="judge_c18",
+                    rule="cases (not positions) 40 % posgen G1/G2/G4, 30 % battery generator (B0 stacked sliders/pawns on the rays "
+                         "aimed at one square, knights and kings around it; Bep en passant, often with a rook/queen on the file "
+                         "beyond the captured pawn; Bpr promotion), 30 % same-kind generator Bsk (promoted material: per side 1-2 "
+                         "groups of 2-3 attackers of ONE kind - bishops on one colour complex, queens, rooks, knights, both pawns "
+                         "(target often on the b-/g-file so that one is a rook pawn) - attacking the target directly, often from "
+                         "the rim, each possibly with an own/enemy bishop/queen/rook directly behind it; random directions give "
+                         "both orders of square numbering) x every legal move (Bsk: every move onto the target, 12 % of the others) "
+                         "x thresholds {v-1, v, v+1} around every partial balance of the capture sequence, a +-queen ladder, 0 and "
+                         "(10 %) the int16 extremes; one case = (position, move); tags samekind>=2[+xray[-behind-lowest|-behind-higher|"
+                         "-behind-inner-with-rim-sibling]]:K count the cases in which a side attacks the target with >= 2 pieces of kind "
+                         "K, one of them with an x-ray piece behind it (the lowest-square one / another one / a non-rim one while a "
+                         "sibling stands on the rim); non-trivial = at least one recapture is possible; distinct by FEN + move")],
          trusted=["attack primitives of the model are the geometric definitions (Spec/Geometry.v via Model/Att.v); the "
                   "engine's magic tables are tied to them by C12 and, here, by the c18 stream running the real tables",
                   "judge_c18 (Spec/SeeSpec.v all_balances) enumerates every choice among equally valued least attackers"],
